@@ -4,5 +4,6 @@ CONSTANTS Bits = 4
           Basis <- BasisFor
           MaxN = 9
           MaxCfg = 16
+          Corners = FALSE
 INVARIANTS EncInv DecInv
 CHECK_DEADLOCK FALSE
